@@ -901,6 +901,11 @@ class Block(composites.Composite):
         if componentPitch and (componentPitch > self._pitchDefiningComponent[1]):
             self._pitchDefiningComponent = (c, componentPitch)
 
+    def restoreBackup(self, paramsToApply):
+        composites.Composite.restoreBackup(self, paramsToApply)
+        # the restored volume of the derived-shape component may predate a pending update: recompute it when next asked
+        self.derivedMustUpdate = True
+
     def add(self, c):
         composites.Composite.add(self, c)
 
